@@ -56,7 +56,7 @@ ASSUMPTIONS = [
 ]
 
 
-EXPECTED_PROBES = ['relevance_with_precomputed_distances', 'non_contiguous_caller_arrays', 'fit_with_identifiers_unlike_positions', 'best_is_last_iteration_and_it_swapped', 'prune_on_an_already_used_object', 'accuracy_zero_in_every_iteration', 'best_iteration_is_not_last', 'learn_swapped_rows', 'more_fits_than_n_iterations', 'nan_weight_no_relevance_verdict', 'prototype_index_drawn', 'prune_discarded_rows', 'prune_dropped_a_relevant_row', 'tie_for_best_accuracy', 'unique_winner_is_first_of_conquest_order', 'winner_is_first_of_conquest_order']
+EXPECTED_PROBES = ['prediction_pass_on_model_with_history_checked', 'relevance_with_precomputed_distances', 'non_contiguous_caller_arrays', 'fit_with_identifiers_unlike_positions', 'best_is_last_iteration_and_it_swapped', 'prune_on_an_already_used_object', 'accuracy_zero_in_every_iteration', 'best_iteration_is_not_last', 'learn_swapped_rows', 'more_fits_than_n_iterations', 'nan_weight_no_relevance_verdict', 'prototype_index_drawn', 'prune_discarded_rows', 'prune_dropped_a_relevant_row', 'tie_for_best_accuracy', 'unique_winner_is_first_of_conquest_order', 'winner_is_first_of_conquest_order']
 
 SLOW_ARMS = ("learn_bigval",)
 
@@ -183,6 +183,8 @@ def gen_case(rng, arm, tier, k=0):
         case["seq"] = [rng.choice(("fit_other", "learn", "prune", "predict", "fit")) for _ in range(rng.randint(2, 4))]
         if "prune" not in case["seq"] and "learn" not in case["seq"]:
             case["seq"].append(rng.choice(("prune", "learn")))
+        if rng.random() < 0.4:
+            case["seq"] = case["seq"] + ["predict"]  # the object is used after learn / prune
         case["Xo"] = gen_matrix(rng, nt, d, style)
         case["Yo"] = gen_labels(rng, nt, K)
         for _ in range(rng.randint(0, 12)):
@@ -343,11 +345,33 @@ class Observer:
                 (np.ascontiguousarray(sg.nodes[i].features, dtype=np.float64).tobytes(), int(sg.nodes[i].label)) for i in R
             )
         if self.op == "seq-predict":
+            # flags only accumulate, so two clauses of J3 hold for every pass whatever came before:
+            # closure under predecessor, and "some exhaustive winner of each sample of THIS pass is
+            # flagged" (the third clause needs everything predicted since the last fit: skipped)
             NIL = B.constants.NIL
             for i in R:
                 pr = sg.nodes[i].pred
                 if pr != NIL and pr not in R:
                     raise Stop(violation("relevance-not-closed", "training sample %d is flagged relevant but its predecessor %d is not" % (i, pr)))
+            fn = model.distance_fn
+            n_ = len(sg.nodes)
+            for k_, x in enumerate(np.asarray(X)):
+                vals = [np.maximum(sg.nodes[t].cost, fn(sg.nodes[t].features, x)) for t in range(n_)]
+                if any(v != v for v in vals) or not vals:
+                    continue
+                best_ = min(vals)
+                M_ = {t for t in range(n_) if vals[t] == best_}
+                if not (R & M_):
+                    raise Stop(
+                        violation(
+                            "relevance-conqueror-not-flagged",
+                            "pass on a model with history (after %s): predicted sample #%d is won by training sample(s) %s but none of them is flagged relevant (flagged: %s)"
+                            % (self.prev_step, k_, sorted(M_), sorted(R)),
+                            winner_is_first=False,
+                            after=self.prev_step,
+                        )
+                    )
+            bump(self.out.probes, "prediction_pass_on_model_with_history_checked")
         elif self.predicts_since_fit == 1 or self.op == "relevance":
             self.check_relevance(model, X, R, cumulative=self.predicts_since_fit > 1, I=I)
 
@@ -512,6 +536,7 @@ def run_case(case):
         nontrivial = False
         state_bits = []
         for si, step in enumerate(steps):
+            obs.prev_step = steps[si - 1] if si else "nothing"
             obs.begin_step(step if step in ("learn", "prune") else "relevance")
             if step == "learn":
                 lib_call("learn", opf.learn, Xt, Yt, Xv, Yv, n_iterations=case["iters"])
